@@ -59,6 +59,16 @@ func witnesses() map[string]func(c *core.Case) {
 				{K: "act", Act: "hist.fetch"}, {K: "send", Raw: res}, {K: "send", Raw: res}}})
 		},
 
+		// the application arms a write deadline on an accepted IBB stream while
+		// the serve loop flushes that stream for the peer's <close/> (reported by
+		// the race detector, whenever both happen)
+		"race:ibb.(*Conn).SetWriteDeadline|ibb.(*stanzaWriter).Write": func(c *core.Case) {
+			runScript(c, &script{Workload: 1, Rule: "witness", Close: true, Steps: []step{
+				{K: "send", Raw: "<iq type='set' id='i1'" + wFrom + "><open xmlns='http://jabber.org/protocol/ibb' block-size='4096' sid='si' stanza='iq'/></iq>"},
+				{K: "act", Act: "ibb.closefail/si/deadline-only"},
+				{K: "send", Raw: "<iq type='set' id='i2'" + wFrom + "><close xmlns='http://jabber.org/protocol/ibb' sid='si'/></iq>"}}})
+		},
+
 		// --- request helpers (workload 2)
 		"panic:unmarshalIQ:type-assert": w2("version.Get",
 			"<iq type='result' id='{id}'"+wSrv+">x</iq>"),
